@@ -30,25 +30,20 @@ theorem chswReset_mask (s : State) (id : Nat) : (chswReset s id).1.mask = s.mask
   simp only [chswReset]; repeat' split
   all_goals simp
 
-theorem announce_vpsPid (lk : Lookup) (c : Carrier) (v : Nat) (s : State) : (announce lk c v s).1.vpsPid = s.vpsPid := by
+theorem announce_mask (cfg : Cfg) (c : Carrier) (v : Nat) (s : State) : (announce cfg c v s).1.mask = s.mask := by
   simp only [announce]
   repeat' split
-  all_goals simp [chswReset_vpsPid]
+  all_goals simp [chswReset_mask, markDone_mask]
 
-theorem announce_mask (lk : Lookup) (c : Carrier) (v : Nat) (s : State) : (announce lk c v s).1.mask = s.mask := by
-  simp only [announce]
-  repeat' split
-  all_goals simp [chswReset_mask]
-
-theorem announce_no_extra (lk : Lookup) (c : Carrier) (v : Nat) (s : State) : ∀ e ∈ (announce lk c v s).2, Ev.isExtra e = false := by
+theorem announce_no_extra (cfg : Cfg) (c : Carrier) (v : Nat) (s : State) : ∀ e ∈ (announce cfg c v s).2, Ev.isExtra e = false := by
   simp only [announce, chswReset]
   repeat' split
   all_goals (intro e he; simp at he; try (rcases he with x | x | x | x) <;> simp_all [Ev.isExtra])
 
 /-- what the announce branch of `vbi_decode_vps` does with the label, by the three cases of the C text -/
-theorem rxVps_announce_branch (lk : Lookup) (s : State) (b : Buf) (h1 : decodeVpsCni b = s.net.cniVps) (h2 : s.net.cycle = 1) :
-    let a := announce lk .vps (decodeVpsCni b) s
-    rxVps lk s b =
+theorem rxVps_announce_branch (cfg : Cfg) (s : State) (b : Buf) (h1 : decodeVpsCni b = s.net.cniVps) (h2 : pending cfg .vps s) :
+    let a := announce cfg .vps (decodeVpsCni b) s
+    rxVps cfg s b =
       if hasBit s.mask VBI_EVENT_PROG_ID then
         if decodeVpsPdc b ≠ s.vpsPid then ({ a.1 with vpsPid := decodeVpsPdc b }, a.2)
         else (a.1, a.2 ++ [Ev.progId (decodeVpsPdc b)])
@@ -58,37 +53,37 @@ theorem rxVps_announce_branch (lk : Lookup) (s : State) (b : Buf) (h1 : decodeVp
 
 /-- a PROG_ID event from a VPS line: the label of this line, equal as a complete record to the stored one, the
     CNI stored, a change pending and a PROG_ID handler registered -/
-theorem rxVps_progId_full (lk : Lookup) (s : State) (b : Buf) (p : Pid) (h : Ev.progId p ∈ (rxVps lk s b).2) :
-    p = decodeVpsPdc b ∧ s.vpsPid = decodeVpsPdc b ∧ decodeVpsCni b = s.net.cniVps ∧ s.net.cycle = 1 ∧
+theorem rxVps_progId_full (cfg : Cfg) (s : State) (b : Buf) (p : Pid) (h : Ev.progId p ∈ (rxVps cfg s b).2) :
+    p = decodeVpsPdc b ∧ s.vpsPid = decodeVpsPdc b ∧ decodeVpsCni b = s.net.cniVps ∧ pending cfg .vps s ∧
     hasBit s.mask VBI_EVENT_PROG_ID = true := by
-  have base := rxVps_progId lk s b p h
+  have base := rxVps_progId cfg s b p h
   refine ⟨base.1, base.2.1, base.2.2, ?_, ?_⟩
-  · by_cases h2 : s.net.cycle = 1
+  · by_cases h2 : pending cfg .vps s
     · exact h2
     · exfalso
       have h1 := base.2.2
       simp [rxVps, h1, h2] at h
-  · by_cases h2 : s.net.cycle = 1
-    · have e := rxVps_announce_branch lk s b base.2.2 h2
+  · by_cases h2 : pending cfg .vps s
+    · have e := rxVps_announce_branch cfg s b base.2.2 h2
       simp only [] at e
       rw [e] at h
       by_cases hb : hasBit s.mask VBI_EVENT_PROG_ID = true
       · exact hb
       · exfalso
         rw [if_neg hb] at h
-        exact absurd (announce_no_extra lk .vps _ s _ h) (by simp [Ev.isExtra])
+        exact absurd (announce_no_extra cfg .vps _ s _ h) (by simp [Ev.isExtra])
     · exfalso
       have h1 := base.2.2
       simp [rxVps, h1, h2] at h
 
 /-- the label a VPS line leaves in `vbi->vps_pid` whenever the line is looked at -/
-theorem rxVps_stores (lk : Lookup) (s : State) (b : Buf)
-    (h : decodeVpsCni b ≠ s.net.cniVps ∨ (s.net.cycle = 1 ∧ hasBit s.mask VBI_EVENT_PROG_ID = true)) :
-    (rxVps lk s b).1.vpsPid = decodeVpsPdc b := by
+theorem rxVps_stores (cfg : Cfg) (s : State) (b : Buf)
+    (h : decodeVpsCni b ≠ s.net.cniVps ∨ (pending cfg .vps s ∧ hasBit s.mask VBI_EVENT_PROG_ID = true)) :
+    (rxVps cfg s b).1.vpsPid = decodeVpsPdc b := by
   by_cases h1 : decodeVpsCni b = s.net.cniVps
   · rcases h with h | ⟨h2, hb⟩
     · exact absurd h1 h
-    · have e := rxVps_announce_branch lk s b h1 h2
+    · have e := rxVps_announce_branch cfg s b h1 h2
       simp only [] at e
       rw [e, if_pos hb]
       by_cases hp : decodeVpsPdc b = s.vpsPid
@@ -97,29 +92,32 @@ theorem rxVps_stores (lk : Lookup) (s : State) (b : Buf)
       · simp [hp]
   · simp [rxVps, h1]
 
-theorem rxVps_mask (lk : Lookup) (s : State) (b : Buf) : (rxVps lk s b).1.mask = s.mask := by
+theorem rxVps_mask (cfg : Cfg) (s : State) (b : Buf) : (rxVps cfg s b).1.mask = s.mask := by
   by_cases h1 : decodeVpsCni b = s.net.cniVps
-  · by_cases h2 : s.net.cycle = 1
-    · have e := rxVps_announce_branch lk s b h1 h2
+  · by_cases h2 : pending cfg .vps s
+    · have e := rxVps_announce_branch cfg s b h1 h2
       simp only [] at e
       rw [e]
       repeat' split
       all_goals simp [announce_mask]
     · simp [rxVps, h1, h2]
-  · simp [rxVps, h1]
+  · simp [rxVps, h1, markChange_mask]
 
-/-- after the announce branch nothing is pending -/
-theorem rxVps_announce_cycle (lk : Lookup) (s : State) (b : Buf) (h1 : decodeVpsCni b = s.net.cniVps) (h2 : s.net.cycle = 1) :
-    (rxVps lk s b).1.net.cycle = 2 := by
-  have e := rxVps_announce_branch lk s b h1 h2
+/-- after the announce branch nothing is pending on the VPS carrier -/
+theorem announce_not_pending (cfg : Cfg) (c : Carrier) (v : Nat) (s : State) : ¬ pending cfg c (announce cfg c v s).1 := by
+  simp only [announce]
+  exact markDone_not_pending _ _ _ _
+
+theorem rxVps_announce_cycle (cfg : Cfg) (s : State) (b : Buf) (h1 : decodeVpsCni b = s.net.cniVps) (h2 : pending cfg .vps s) :
+    ¬ pending cfg .vps (rxVps cfg s b).1 := by
+  have e := rxVps_announce_branch cfg s b h1 h2
   simp only [] at e
   rw [e]
-  have c : (announce lk .vps (decodeVpsCni b) s).1.net.cycle = 2 := by
-    simp only [announce]
-    repeat' split
-    all_goals simp
+  have c := announce_not_pending cfg .vps (decodeVpsCni b) s
   repeat' split
-  all_goals simp [c]
+  all_goals first
+    | exact c
+    | (rw [pending_congr cfg .vps (announce cfg .vps (decodeVpsCni b) s).1 _ rfl rfl]; exact c)
 
 /-! ## between two VPS lines -/
 
@@ -143,19 +141,27 @@ theorem rxWss_vpsPid (s : State) (b0 b1 t : Nat) : (rxWss s b0 b1 t).1.vpsPid = 
   all_goals simp
 
 /-- across such an atom the stored label and the mask stay, and no cycle becomes pending -/
-def PidStay (s s' : State) : Prop :=
-  s'.vpsPid = s.vpsPid ∧ s'.mask = s.mask ∧ (s.net.cycle ≠ 1 → s'.net.cycle ≠ 1)
+def PidStay (cfg : Cfg) (s s' : State) : Prop :=
+  s'.vpsPid = s.vpsPid ∧ s'.mask = s.mask ∧ (¬ pending cfg .vps s → ¬ pending cfg .vps s')
 
-theorem pidStay_of_net (s s' : State) (h1 : s'.vpsPid = s.vpsPid) (h2 : s'.mask = s.mask)
-    (h3 : s'.net = s.net ∨ s'.net = {}) : PidStay s s' := by
+theorem pidStay_of_net (cfg : Cfg) (s s' : State) (h1 : s'.vpsPid = s.vpsPid) (h2 : s'.mask = s.mask)
+    (h3 : (s'.net = s.net ∧ s'.deb = s.deb) ∨ (s'.net = {} ∧ s'.deb = {})) : PidStay cfg s s' := by
   refine ⟨h1, h2, ?_⟩
-  rcases h3 with e | e <;> rw [e]
-  · exact id
-  · intro _; decide
+  rcases h3 with e | e
+  · rw [pending_congr cfg .vps s s' e.1 e.2]; exact id
+  · intro _
+    unfold pending; rw [e.1, e.2]
+    split <;> decide
 
-theorem stepAtom_pidStay (cfg : Cfg) (s : State) (a : Atom) (h : a.pidQuiet = true) : PidStay s (stepAtom cfg s a).1 := by
+theorem prologue_net_deb (s : State) (t : Nat) :
+    ((prologue s t).1.net = s.net ∧ (prologue s t).1.deb = s.deb) ∨ ((prologue s t).1.net = {} ∧ (prologue s t).1.deb = {}) := by
+  simp only [prologue, chswReset]
+  repeat' split
+  all_goals simp
+
+theorem stepAtom_pidStay (cfg : Cfg) (s : State) (a : Atom) (h : a.pidQuiet = true) : PidStay cfg s (stepAtom cfg s a).1 := by
   cases a with
-  | tick t => exact pidStay_of_net _ _ (prologue_vpsPid_mask s t).1 (prologue_vpsPid_mask s t).2 (prologue_net s t)
+  | tick t => exact pidStay_of_net cfg _ _ (prologue_vpsPid_mask s t).1 (prologue_vpsPid_mask s t).2 (prologue_net_deb s t)
   | mask m => simp [Atom.pidQuiet] at h
   | chsw => exact ⟨rfl, rfl, id⟩
   | line t l =>
@@ -165,13 +171,13 @@ theorem stepAtom_pidStay (cfg : Cfg) (s : State) (a : Atom) (h : a.pidQuiet = tr
     | xds ty bytes => simp [Atom.pidQuiet] at h
     | wss b0 b1 =>
       simp only [stepAtom, rxLine]
-      exact pidStay_of_net _ _ (rxWss_vpsPid s b0 b1 t) (rxWss_keeps s b0 b1 t).2.2.2.1 (Or.inl (rxWss_keeps s b0 b1 t).1)
+      exact pidStay_of_net cfg _ _ (rxWss_vpsPid s b0 b1 t) (rxWss_keeps s b0 b1 t).2.2.2.1 (Or.inl ⟨(rxWss_keeps s b0 b1 t).1, rxWss_deb s b0 b1 t⟩)
     | page pgno =>
       simp only [stepAtom]
       rcases rxLine_page cfg t s pgno with e | e <;> rw [e] <;> exact ⟨rfl, rfl, id⟩
 
 theorem runAtoms_pidStay (cfg : Cfg) : ∀ (mid : List Atom) (s : State), (∀ a ∈ mid, a.pidQuiet = true) →
-    PidStay s (runAtoms cfg s mid).1 := by
+    PidStay cfg s (runAtoms cfg s mid).1 := by
   intro mid
   induction mid with
   | nil => intro s _; exact ⟨rfl, rfl, id⟩
@@ -189,24 +195,24 @@ theorem vps_pid_needs_equal_repeat (cfg : Cfg) (s0 : State) (t1 t2 : Nat) (b1 b2
     (h : Ev.progId p ∈ (stepAtom cfg (runAtoms cfg (stepAtom cfg s0 (.line t1 (.vps b1))).1 mid).1 (.line t2 (.vps b2))).2) :
     decodeVpsPdc b1 = decodeVpsPdc b2 ∧ p = decodeVpsPdc b2 := by
   simp only [stepAtom, rxLine] at h hmid ⊢
-  have st := runAtoms_pidStay cfg mid (rxVps cfg.lk s0 b1).1 hmid
-  have f := rxVps_progId_full cfg.lk _ b2 p h
+  have st := runAtoms_pidStay cfg mid (rxVps cfg s0 b1).1 hmid
+  have f := rxVps_progId_full cfg _ b2 p h
   refine ⟨?_, f.1⟩
   rw [st.1] at f
   by_cases h1 : decodeVpsCni b1 = s0.net.cniVps
-  · by_cases h2 : s0.net.cycle = 1
+  · by_cases h2 : pending cfg .vps s0
     · by_cases hb : hasBit s0.mask VBI_EVENT_PROG_ID = true
-      · rw [rxVps_stores cfg.lk s0 b1 (Or.inr ⟨h2, hb⟩)] at f
+      · rw [rxVps_stores cfg s0 b1 (Or.inr ⟨h2, hb⟩)] at f
         exact f.2.1
       · exfalso
         have hm := f.2.2.2.2
         rw [st.2.1, rxVps_mask] at hm
         exact hb hm
     · exfalso
-      have e : (rxVps cfg.lk s0 b1).1 = s0 := by simp [rxVps, h1, h2]
+      have e : (rxVps cfg s0 b1).1 = s0 := by simp [rxVps, h1, h2]
       rw [e] at st f
       exact st.2.2 h2 f.2.2.2.1
-  · rw [rxVps_stores cfg.lk s0 b1 (Or.inl h1)] at f
+  · rw [rxVps_stores cfg s0 b1 (Or.inl h1)] at f
     exact f.2.1
 
 /-! ## all histories: the stored label is the complete label of some VPS line received earlier -/
@@ -217,11 +223,11 @@ def vpsLabels : List Atom → List Pid
   | .line _ (.vps b) :: as => decodeVpsPdc b :: vpsLabels as
   | _ :: as => vpsLabels as
 
-theorem rxVps_vpsPid_cases (lk : Lookup) (s : State) (b : Buf) :
-    (rxVps lk s b).1.vpsPid = s.vpsPid ∨ (rxVps lk s b).1.vpsPid = decodeVpsPdc b := by
+theorem rxVps_vpsPid_cases (cfg : Cfg) (s : State) (b : Buf) :
+    (rxVps cfg s b).1.vpsPid = s.vpsPid ∨ (rxVps cfg s b).1.vpsPid = decodeVpsPdc b := by
   by_cases h1 : decodeVpsCni b = s.net.cniVps
-  · by_cases h2 : s.net.cycle = 1
-    · have e := rxVps_announce_branch lk s b h1 h2
+  · by_cases h2 : pending cfg .vps s
+    · have e := rxVps_announce_branch cfg s b h1 h2
       simp only [] at e
       rw [e]
       repeat' split
@@ -229,23 +235,23 @@ theorem rxVps_vpsPid_cases (lk : Lookup) (s : State) (b : Buf) :
     · left; simp [rxVps, h1, h2]
   · right; simp [rxVps, h1]
 
-theorem cniRx_vpsPid (lk : Lookup) (c : Carrier) (v : Nat) (s : State) : (cniRx lk c v s).1.vpsPid = s.vpsPid := by
+theorem cniRx_vpsPid (cfg : Cfg) (c : Carrier) (v : Nat) (s : State) : (cniRx cfg c v s).1.vpsPid = s.vpsPid := by
   simp only [cniRx]
   repeat' split
-  all_goals simp [announce_vpsPid]
+  all_goals simp [announce_vpsPid, markChange_vpsPid]
 
-theorem rxTtx_vpsPid (lk : Lookup) (s : State) (b : Buf) : (rxTtx lk s b).1.vpsPid = s.vpsPid := by
-  rw [(rxTtx_eq lk s b).1]
+theorem rxTtx_vpsPid (cfg : Cfg) (s : State) (b : Buf) : (rxTtx cfg s b).1.vpsPid = s.vpsPid := by
+  rw [(rxTtx_eq cfg s b).1]
   cases ttxCni s.mask b with
   | none => rfl
-  | some p => exact cniRx_vpsPid lk p.1 p.2 s
+  | some p => exact cniRx_vpsPid cfg p.1 p.2 s
 
 theorem rxXds_vpsPid (g : Bool) (s : State) (ty : Nat) (bytes : List Nat) : (rxXds g s ty bytes).1.vpsPid = s.vpsPid := by
   simp only [rxXds]
   repeat' split
   all_goals simp [chswReset_vpsPid]
 
-theorem eventEnable_vpsPid (s : State) (m : Nat) : (eventEnable s m).vpsPid = s.vpsPid ∨ (eventEnable s m).vpsPid = {} := by
+theorem eventEnable_vpsPid (k : Bool) (s : State) (m : Nat) : (eventEnable k s m).vpsPid = s.vpsPid ∨ (eventEnable k s m).vpsPid = {} := by
   simp only [eventEnable]
   repeat' split
   all_goals simp
@@ -254,17 +260,17 @@ theorem stepAtom_vpsPid (cfg : Cfg) (s : State) (a : Atom) :
     (stepAtom cfg s a).1.vpsPid = s.vpsPid ∨ (stepAtom cfg s a).1.vpsPid = {} ∨ (stepAtom cfg s a).1.vpsPid ∈ vpsLabels [a] := by
   cases a with
   | tick t => left; exact (prologue_vpsPid_mask s t).1
-  | mask m => rcases eventEnable_vpsPid s m with e | e
+  | mask m => rcases eventEnable_vpsPid _ s m with e | e
               · left; exact e
               · right; left; exact e
   | chsw => left; rfl
   | line t l =>
     cases l with
     | vps b =>
-      rcases rxVps_vpsPid_cases cfg.lk s b with e | e
+      rcases rxVps_vpsPid_cases cfg s b with e | e
       · left; exact e
       · right; right; simp only [stepAtom, rxLine, vpsLabels]; rw [e]; exact List.mem_cons_self ..
-    | ttx b => left; exact rxTtx_vpsPid cfg.lk s b
+    | ttx b => left; exact rxTtx_vpsPid cfg s b
     | xds ty bytes => left; exact rxXds_vpsPid _ s ty bytes
     | wss b0 b1 => left; exact rxWss_vpsPid s b0 b1 t
     | page pgno =>
